@@ -222,7 +222,7 @@ theorem subdivide_scale (row : List F) (h : 1 ≤ row.length) (i : ℕ) (hi : i 
     seq (Py.subdivideRow (row.map (|·|))).1 i = absSpecPoint 0 (1/2) row i ∧
     seq (Py.subdivideRow (row.map (|·|))).2 i = absSpecPoint (1/2) 1 row i := by
   have hl : 1 ≤ (row.map (|·|)).length := by simpa using h
-  haveI : NeZero (2 : F) := ⟨two_ne_zero⟩
+  have : NeZero (2 : F) := ⟨two_ne_zero⟩
   unfold Py.subdivideRow
   simp only
   rw [Subdivide.rowMul_leftMat _ hl, Subdivide.rowMul_rightMat _ hl]
@@ -350,6 +350,49 @@ theorem specialize_comparator_f90_quadratic (fl : F → F) (u : F) (hu : 0 ≤ u
           mul_le_mul hc (s1 hM1) hS0 (by positivity)
       _ ≤ 8 * u * ((1 + M)^2 * (|x| + |y| + |z|)) := by nlinarith
 
+/-- the non-cancelling entries of the Fortran closed forms against the script's first part
+    `4(3n+3) u · blossom`: linear (`n = 1`, all entries) `1.01·3 ≤ 24`, quadratic (`n = 2`, first
+    and last entry) `1.01·6 ≤ 36` -/
+theorem specialize_comparator_f90_closed (fl : F → F) (u : F) (hu : 0 ≤ u)
+    (hfl : ∀ x, |fl x - x| ≤ u * |x|) (hu53 : u ≤ 1 / 2^53) (h2 : fl (1 + 1) = 1 + 1) (x y z a b : F) :
+    (∀ i, i < 2 →
+      |(seq (F90.specializeRow [(⟨x⟩ : Fl F fl), ⟨y⟩] ⟨a⟩ ⟨b⟩) i).val - seq (F90.specializeRow [x, y] a b) i|
+        ≤ 24 * u * absSpecPoint a b [x, y] i) ∧
+    (∀ i, i = 0 ∨ i = 2 →
+      |(seq (F90.specializeRow [(⟨x⟩ : Fl F fl), ⟨y⟩, ⟨z⟩] ⟨a⟩ ⟨b⟩) i).val
+          - seq (F90.specializeRow [x, y, z] a b) i|
+        ≤ 36 * u * absSpecPoint a b [x, y, z] i) := by
+  have k3 : ((3 : ℕ) : F) * u ≤ 1 / 100 := ku_small u hu hu53 3 (by norm_num)
+  have k6 : ((6 : ℕ) : F) * u ≤ 1 / 100 := ku_small u hu hu53 6 (by norm_num)
+  have c3 := pow_sub_one_le_comparator u hu 3 k3
+  have c6 := pow_sub_one_le_comparator u hu 6 k6
+  push_cast at c3 c6
+  constructor
+  · intro i hi
+    have h := specialize_rounding_f90_linear fl u hu hfl x y a b i
+    rw [specialize_scale_linear] at h
+    have hs : seq ((List.range 2).map (absSpecPoint a b [x, y])) i = absSpecPoint a b [x, y] i :=
+      Subdivide.seq_map_range _ _ _ hi
+    rw [hs] at h
+    have h0 : 0 ≤ absSpecPoint a b [x, y] i :=
+      le_trans (abs_nonneg _) (specialize_abs_le [x, y] a b i (by simpa using hi))
+    refine le_trans h ?_
+    have : (1+u)^3 - 1 ≤ 24 * u := by linarith
+    exact mul_le_mul_of_nonneg_right this h0
+  · intro i hi
+    have h := specialize_rounding_f90_quadratic fl u hu hfl h2 x y z a b i
+    obtain ⟨e0, e2⟩ := specialize_scale_quadratic_ends x y z a b
+    have h0 : 0 ≤ absSpecPoint a b [x, y, z] i :=
+      le_trans (abs_nonneg _) (specialize_abs_le [x, y, z] a b i (by rcases hi with rfl | rfl <;> simp))
+    have hc : (1+u)^6 - 1 ≤ 36 * u := by linarith
+    rcases hi with rfl | rfl
+    · simp only [seq, List.getD_cons_zero] at h ⊢
+      rw [e0] at h
+      exact le_trans h (mul_le_mul_of_nonneg_right hc h0)
+    · simp only [seq, List.getD_cons_succ, List.getD_cons_zero] at h ⊢
+      rw [e2] at h
+      exact le_trans h (mul_le_mul_of_nonneg_right hc h0)
+
 /-! ### non-vacuity -/
 
 /-- exact arithmetic satisfies every hypothesis; the bounds collapse to equalities -/
@@ -376,6 +419,18 @@ example (row : List ℚ) (a b : ℚ) (i : ℕ) (hi : i < row.length) :
     (by intro x
         have : x * (1 + 1/1024) - x = 1/1024 * x := by ring
         rw [this, abs_mul]; norm_num) row a b i hi
+
+/-- the subdivision theorems for an inexact arithmetic in which the dyadic weights are exact
+    (`flDy`: `fl (1/3) ≠ 1/3`, `u = 2⁻¹⁰`), every row with at most 65 nodes -/
+example (row : List ℚ) (h : row.length ≤ 65) (i : ℕ) :
+    |(seq (F90.subdivideRow (row.map (Fl.mk (fl := flDy)))).1 i).val - seq (F90.subdivideRow row).1 i|
+      ≤ ((1 + 1/1024 : ℚ)^(row.length + 1) - 1) * seq (F90.subdivideRow (row.map (|·|))).1 i :=
+  (subdivide_rounding_f90 flDy (1/1024) flDy_std.hu flDy_std.hfl row (flDy_dyadic _ (by omega)) i).1
+
+example (row : List ℚ) (h : row.length ≤ 65) (i : ℕ) :
+    |(seq (Py.subdivideRow (row.map (Fl.mk (fl := flDy)))).2 i).val - seq (Py.subdivideRow row).2 i|
+      ≤ ((1 + 1/1024 : ℚ)^(row.length + 1) - 1) * seq (Py.subdivideRow (row.map (|·|))).2 i :=
+  (subdivide_rounding_py flDy (1/1024) flDy_std.hu flDy_std.hfl row (flDy_dyadic _ (by omega)) i).2
 
 /-- concrete instance of the scale: the cubic `[0,1,3,7]` restricted to `[¼,¾]`, entry 1 -/
 example : absSpecPoint (1/4 : ℚ) (3/4) [0, 1, -3, 7] 1 = 111 / 64 := by
